@@ -110,4 +110,13 @@ CHECKS = {
         "record/identify bindings, decisions on probe hashes) equal their values before the attempt. 18 kinds of invalid change at every "
         "position; dict round trips with symbolic integer options; config-key render/parse inverse over symbolic names.",
    note="Trusted: z3; the scratch failing scheme. INI text and float vary_rounds only at enumerated values. Outside: ConfigParser internals."),
+ "C08": dict(engine="E1-zshadow", category="other", design_ref="DESIGN.md §4 C08",
+   technique="path exploration of the real identify/verify/needs_update code on hash strings with one arbitrary symbolic character per position (SRegex for compiled patterns, exact int() model) + z3",
+   text="For every hasher in scope and every position of 1-3 valid hash strings, one character is replaced by / inserted as an "
+        "arbitrary Unicode code point (symbolic); every feasible path of the real parsing and verification code must end in a bool or "
+        "ValueError/TypeError, and a path that verifies forces the character to be the original or a documented re-encoding (hex "
+        "case). Truncations, deletions, duplications and garbage strings run concretely.",
+   note="Trusted: z3; SRegex (validated against re), int()/case-mapping models (validated against CPython), codec models (C12); digest "
+        "stub 'original digest iff parsed settings equal the original' (collision-free assumption). Open known findings: lenient "
+        "base64 fields and the django_des_crypt salt tail (known_findings.txt). Outside: multi-edit corruptions."),
 }
